@@ -85,7 +85,7 @@ def corr_patterns(ctx):
     n_base = 6 if ctx.quick else 20
     k = 5 if ctx.quick else 10
     specs = base_specs(ctx, n_base)
-    conn, heat, red, meta, meta_red = [], [], [], [], []
+    conn, heat, red, meta, meta_red, rst = [], [], [], [], [], []
     for sp in specs:
         net = gen.build(sp)
         flags = choose_flags(rng, net, k)
@@ -122,6 +122,12 @@ def corr_patterns(ctx):
                 if "node_active_heat_transfer" in net["_lookups"]:
                     red.append(cc.red_case(net, "heat_transfer"))
                     meta_red.append((sp, flags, bits))
+                if rng.random() < (0.25 if ctx.quick else 0.05):
+                    net["_lookups"].pop("node_active_heat_transfer", None)
+                    cc.red_case(net, "hydraulics")           # the state _restart_connectivity_check starts from
+                    rc = cc.restart_case(net, rng)
+                    if rc:
+                        rst.append(rc)
         cc.apply_flags(net, flags, base_bits)
         # the path without connectivity check
         txt, info, obs = cc.conn_case(net, check=False)
@@ -137,6 +143,8 @@ def corr_patterns(ctx):
     run_cases(ctx, "red_case", "red_case_ok", red, "C04.Model.reduce_ft / reduce_index_lookups / reduce_from_to == "
               "reduce_pit, reduce_lookups, copy_lookups (active from/to, ELEMENT_IDX, index_active, from_to_active)",
               meta_red, 60, classify=mon.classify_red_mismatch)
+    run_cases(ctx, "rs_case", "rs_case_ok", rst, "C04.Model.restart_check == pipeflow._restart_connectivity_check "
+              "(flag, written-back ACTIVE columns, re-reduced ACTIVE columns)", None, 100)
 
 
 def run_cases(ctx, typ, okfn, body, name, meta, size, classify=None):
